@@ -203,7 +203,7 @@ def l3(ctx):
                     n += 1
                     ctx.oblige(1)
                     ctx.instance('%s builds %s' % (key, s['rv']['name']))
-                    if key not in allowed:
+                    if not fam.allowed_for(ctx, key, allowed):
                         ctx.violate(key, None, 'a %s handle is constructed outside the clone family / channel constructors (count not adjusted)' % s['rv']['name'], at=s.get('at'), sig='construct:' + canon(s['rv']['name']))
     # a handle must never be forgotten / wrapped in ManuallyDrop inside the crate: its Drop is what keeps the count right
     for key, b in ctx.facts.bodies.items():
@@ -424,17 +424,17 @@ def l6(ctx):
     for key, f, at, how in field_writes(ctx, ('send_count', 'recv_count')):
         ctx.oblige(1)
         ctx.instance('%s writes %s (%s)' % (key, f, how))
-        if key not in allowed:
+        if not fam.allowed_for(ctx, key, allowed):
             ctx.violate(key, None, 'handle counter %s written (%s) outside new/Drop/clone/close' % (f, how), at=at, sig='write:' + f)
     for key, f, at, how in field_writes(ctx, ('recv_blocking',)):
         ctx.oblige(1)
         ctx.instance('%s writes recv_blocking (%s)' % (key, how))
-        if key not in ('internal::ChannelInternal::<T>::new', 'internal::ChannelInternal::<T>::next_send', 'internal::ChannelInternal::<T>::next_recv'):
+        if not fam.allowed_for(ctx, key, ('internal::ChannelInternal::<T>::new', 'internal::ChannelInternal::<T>::next_send', 'internal::ChannelInternal::<T>::next_recv')):
             ctx.violate(key, None, 'wait-list kind flag recv_blocking written (%s) outside next_send/next_recv: a non-empty wait list could be mislabelled' % how, at=at, sig='write:recv_blocking')
     for key, f, at, how in field_writes(ctx, ('capacity',)):
         ctx.oblige(1)
         ctx.instance('%s writes capacity (%s)' % (key, how))
-        if key != 'internal::ChannelInternal::<T>::new':
+        if not fam.allowed_for(ctx, key, ('internal::ChannelInternal::<T>::new',)):
             ctx.violate(key, None, 'capacity written (%s) outside ChannelInternal::new' % how, at=at, sig='write:capacity')
 
 
@@ -691,4 +691,7 @@ def o2(ctx):
         ctx.oblige(1, sample='%s may panic via %s' % (key, kind))
         ctx.instance('%s %s' % (key, kind))
         if (key, kind) not in PANIC_ALLOWED:
+            os_ = fam.owners(ctx, key)
+            if fam.is_delegate(ctx.facts, key) and all((o, kind) in PANIC_ALLOWED for o in os_):
+                continue  # a private helper / closure: the construct is accounted for in every API function it serves
             ctx.violate(key, None, 'new panic-capable construct (%s) not in the accepted inventory' % kind, at=at, sig='panic:' + kind)
